@@ -30,6 +30,9 @@ pub trait Sim: Send + Sync {
     /// A yield point at `site` (for instance `read_file.open`). Scheduling point. Returning an
     /// error makes the operation at `site` fail with it.
     fn fault_point(&self, site: &'static str, path: &Path) -> Option<std::io::Error>;
+    /// A pure yield point inside code generation (the schema / query accessors). Scheduling point
+    /// when the simulator wants interleavings below cache-lock granularity; no-op by default.
+    fn yield_point(&self, _site: &'static str) {}
 }
 
 static SIM: OnceLock<Box<dyn Sim>> = OnceLock::new();
@@ -42,6 +45,14 @@ pub fn register(sim: Box<dyn Sim>) -> bool {
 /// Yield / fault point used by `read_file`.
 pub fn fault_point(site: &'static str, path: &Path) -> Option<std::io::Error> {
     SIM.get().and_then(|sim| sim.fault_point(site, path))
+}
+
+/// Yield point used by the schema and query accessors.
+#[inline]
+pub fn yield_point(site: &'static str) {
+    if let Some(sim) = SIM.get() {
+        sim.yield_point(site);
+    }
 }
 
 /// Same interface as the part of `std::sync::Mutex` the crate uses.
